@@ -161,7 +161,7 @@ vars == <<pod, pc, obs>>
 
 NoObs == [admitted |-> FALSE, mutated |-> FALSE, idem |-> TRUE, d_wf |-> FALSE, d_kind |-> "none",
           s_kind |-> "none", s_exact |-> FALSE, s_sharing |-> FALSE,
-          fits |-> FALSE, b_reached |-> FALSE, b_ok |-> FALSE, b_exact |-> FALSE, sharing |-> TRUE]
+          fits |-> FALSE, b_reached |-> FALSE, b_ok |-> FALSE, b_exact |-> FALSE, sharing |-> TRUE, updsame |-> TRUE]
 
 Init == /\ pod \in Pods /\ pc = "new"
         /\ obs = [NoObs EXCEPT !.d_wf = M_Dwf(pod), !.d_kind = DKind(pod), !.sharing = (pod.sharing = 1), !.fits = M_Fits(pod)]
@@ -208,5 +208,8 @@ C19_BinderAgrees == (Done /\ obs.admitted /\ obs.d_wf /\ obs.s_kind = obs.d_kind
 (* nothing the scheduler would treat as a GPU-sharing request gets in when malformed or when sharing is off *)
 C19_NoSneak == (Done /\ obs.s_sharing /\ (~obs.d_wf \/ ~obs.sharing)) => ~obs.admitted
 C19_MutateIdempotent == Done => obs.idem
+(* the validating webhook gives an object arriving as an UPDATE (annotation-only change of a stored pod) the
+   verdict it gives it on CREATE: what CREATE rejects cannot be smuggled in afterwards *)
+C19_UpdateValidatedAsCreate == Done => obs.updsame
 C19_Terminates == <>Done
 =============================================================================
